@@ -84,6 +84,11 @@ def run(ctx):
     ctx.sample(traces[0][:25])
     vlib.check_traces(ctx, traces, "conc", module="TraceResolverCache", cfg="TraceResolverCache.cfg", specname="ResolverCache.tla")
     parked_stage(ctx)
+    # what gets cached comes out of one DoH exchange: a response that is cut short, oversized or otherwise not a complete DNS
+    # message is a failed lookup (nothing cached), for every framing of Doh.tla
+    if not ctx.replay:
+        import c14
+        c14.doh_stage(ctx)
 
 
 def parked_stage(ctx):
